@@ -28,6 +28,9 @@ type edit struct {
 	Full bool // no range: replace the whole text
 	S, E pos
 	Text string
+	// WithLen: the notification also carries the deprecated rangeLength member (UTF-16 units of the replaced span, as
+	// clients that still send it compute it); it is consistent with the range, so the result is the same
+	WithLen bool
 }
 
 type mdoc struct {
